@@ -193,14 +193,18 @@ def run_check(prop, tier, verif_seed, replay_file=None, budget_override=None):
 
     # ---- seeded exploration ---------------------------------------------------
     procs = []
+    variants = budget.get("env_variants") or [{}]
     for k in range(nworkers):
+        venv_ = variants[k % len(variants)]
+        env_k = worker_env(extra=venv_) if venv_ else env
         args = {
             "mode": "explore", "property": prop, "tier": tier, "verif_seed": verif_seed,
             "start": k, "stride": nworkers, "max_index": max_index, "wall_s": wall,
             "out": os.path.join(rundir, f"w{k}.jsonl"), "sample_below": 3,
         }
         lf = open(os.path.join(rundir, f"w{k}.log"), "wb")
-        procs.append((k, spawn(args, env, stdout=lf), lf))
+        args["variant"] = k % len(variants)
+        procs.append((k, spawn(args, env_k, stdout=lf), lf))
     hard_deadline = time.time() + wall + 600
     failed = []
     for k, p, lf in procs:
@@ -235,7 +239,7 @@ def run_check(prop, tier, verif_seed, replay_file=None, budget_override=None):
 
     # ---- determinism self-test (other process, other hash seed, 1 worker) ----
     det = {"checked": 0, "mismatch": 0}
-    ok_recs = [r for r in records if not r.get("violations")]
+    ok_recs = [r for r in records if not r.get("violations") and not r.get("variant")]
     nsel = int(budget.get("selftest", 6))
     if ok_recs and nsel:
         step = max(1, len(ok_recs) // nsel)
@@ -310,7 +314,7 @@ def run_check(prop, tier, verif_seed, replay_file=None, budget_override=None):
     # ---- evidence ------------------------------------------------------------
     wall_total = time.time() - t_start
     write_evidence(mod, prop, tier, verif_seed, records, corpus_run, det, reported, known_hits,
-                   wall_total, wall_explore, nworkers)
+                   wall_total, wall_explore, nworkers, variants)
     shutil.rmtree(rundir, ignore_errors=True)
     if reported:
         return 1
@@ -358,7 +362,7 @@ def do_replay(prop, path, env, rundir):
 
 
 def write_evidence(mod, prop, tier, verif_seed, records, corpus_run, det, reported, known_hits,
-                   wall_total, wall_explore, nworkers):
+                   wall_total, wall_explore, nworkers, env_variants=None):
     counters = {}
     worlds = {}
     discarded = {}
@@ -405,6 +409,7 @@ def write_evidence(mod, prop, tier, verif_seed, records, corpus_run, det, report
             "corpus_replays": corpus_run,
             "scenario_seeds_per_hour": int(n / hours),
             "worker_processes": nworkers,
+            "worker_env_variants": env_variants,
             "simulated_scheduler_steps": steps,
             "simulated_handovers": handovers,
             "simulated_time_s": sim_time,
